@@ -11,7 +11,7 @@ _PROVED = {
  "C06": "Proved (Props/C06.v): isHidden decides exactly 'at or below a hidden path', component-wise (C06_is_hidden_spec); every single-name method, Rename and Symlink on every spelling of such a name is rejected with the documented error before any underlying call (C06_lexical_*). 'By any route' (through symlinks in the tree) is the recorded finding D9. ",
  "C07": "Proved (Props/C07.v, arbitrary filesystems): a Rollback with nothing tracked issues no call and changes nothing; whenever Rollback runs to its end nothing is tracked; BackupFS has no state besides baseInfos (struct fields from the AST). 'Backup filesystem as before' is decided by the oracle and, for covered histories, by the C01 theorems (backup empty after Rollback). ",
  "C09": "Proved (Props/C09.v, arbitrary filesystems): every error of Rollback is ErrRollbackFailed; restoreFile/restoreSymlink propagate failures. Props/C09_faults.v (over the laws + fault laws, closed for the three layerings): for EVERY fault plan Rollback returns nil only if the base view is restored, the backup empty and nothing tracked; under a single-fault plan histories of covered operations keep the invariant and Rollback returns nil once the fault is spent. Histories outside 'covered': fault enumeration. ",
- "C10": "Proved (Props/C10.v): the lock table regenerated from the Go AST satisfies the lock discipline (kernel-evaluated), each exported method either locks first with a deferred unlock or touches neither baseInfos nor a mutating method (C10_classification), and under that discipline every interleaving of any number of threads is a serial execution of the locked operations (C10_serialisable). Data races at the Go memory-model level: race detector only (partial). Writes through returned handles lie outside the lock by design (K7). ",
+ "C10": "Proved (Props/C10.v): the lock table regenerated from the Go AST satisfies the lock discipline (kernel-evaluated), each exported method either locks first with a deferred unlock or touches neither baseInfos nor a mutating method (C10_classification), and under that discipline every interleaving of any number of threads is a serial execution of the locked operations (C10_serialisable). Data races at the Go memory-model level: race detector only (partial). Writes through returned handles lie outside the lock by design (K7); dynamically every other primitive call of a held operation (identified as fs.method by the harness) must be made under the lock. ",
  "C11": "Proved (Props/C11.v): for every directory content, hidden set and sequence of Readdir/Readdirnames counts the listing returns exactly the visible entries, each once, no error (C11_listing, C11_visible_spec); renaming an ancestor of a hidden path is refused lexically. HiddenFS.RemoveAll effect theorem (C11_removeall_effect, concrete OS model, any hidden set, symlinks in the subtree allowed): hidden entries untouched, lexical ancestor directories of hidden paths kept with mode/owner, everything else in the subtree gone, nothing outside changed; names reached through symlinks are outside (D9). ",
  "C12": "Proved (Props/C12.v): every FileInfo accessor survives toFInfo/JSON (C12_reload_info), Map() after a reload equals Map() before (C12_reload_spec), a restart at any point of a history changes nothing observable under names_ok (C12_restart_identity). encoding/json itself is not modelled (reload_info abstracts it away); it is exercised by the implementation-only round-trip stream. ",
  "C14": "Proved (Props/C14.v): for absolute prefixes prefixPath is Join(prefix, Clean('/'+name)); every forwarded call has exactly the re-rooted arguments; File.Name/FileInfo.Name report the virtual name; Readlink trims the prefix from targets inside it and Symlink-then-Readlink returns the cleaned target. ",
@@ -22,7 +22,7 @@ _PROVED = {
  "C03": "Proved (Props/C03.v, for arbitrary filesystems, every world): Lstat/Stat/Readlink/Open/OpenFile(O_RDONLY) through BackupFS are exactly one call of the base, invoke nothing on the backup (trap_api) and no mutating base method, leave baseInfos alone. Mutating operations (Proofs/Transparent.v; 41 statements in Props/C03.v; closed for the generic, the documented and the New/NewWithFS layering): after a successful resolution and backup step the operation is the base's own operation on the resolved name; for covered operations the backup step leaves the base view untouched and the operation equals the direct one on a base showing the same view, or fails with the backup's error leaving the base view unchanged; it changes the base view at most at the named entry (C03_affects_only_named); RemoveAll of an absent path returns nil. Names with symlinked parents, D14/D12/K6 and error classes: twin oracle. ",
  "C04": "Proved (Props/C04.v, 21 theorems and 11 examples, HiddenFS over ANY filesystem): every method on every spelling of a name lexically at/below the location is rejected with the world unchanged; listings never reveal it; no BackupFS operation invokes any method of the underlying or the backup filesystem on a hidden name (C04_universal_seal); operations whose resolved name is at/below it do not succeed and mutate nothing underneath; the location is never backed up into itself. Lexical on the resolved name (D9/D17 recorded). Rollback keeps working for everything outside the location, histories that RemoveAll or Rename a parent of it included: C04_rollback_documented_partial and C04_rollback_new_partial (closed theorems for the HiddenFS-inside-PrefixFS layering and for New/NewWithFS) + examples + oracle. ",
  "C08": "Proved (Props/C08.v, 21 theorems, for arbitrary filesystems and every world incl. faults/crash points): taking a backup never invokes a mutating base method; if the backup of any mutating operation fails the operation returns that failure in exactly the world the failed backup left (fail-stop), Rename for each of its two backups, RemoveAll per entry. Props/C08_faults.v (over the laws + fault laws, closed for the three layerings): under every single-fault plan every covered operation keeps the transaction invariant, and a fault on the backup filesystem during a backup-taking operation yields an error with the base view unchanged; afterwards Rollback restores (C09_faults). Multi-fault plans: enumeration (two faults can break the clean-up of a partial copy: the boundary the proof identified). ",
- "C13": "Proved (Props/C13.v, arbitrary filesystems): every call Rollback makes on either filesystem is on a path tracked when it started (guard_api), on the backup only Lstat/Open/Readlink/Remove. What base.RemoveAll/MkdirAll do inside the method is covered by the oracle (foreign entries survive). ",
+ "C13": "Proved (Props/C13.v, arbitrary filesystems): every call Rollback makes on either filesystem is on a path tracked when it started (guard_api), on the backup only Lstat/Open/Readlink/Remove. What base.RemoveAll/MkdirAll do inside the method is covered by the oracle (foreign entries survive; every entry not tracked when Rollback starts is unchanged by Rollback, also when the transaction put a symlink to it in the place of a tracked path). ",
  "C16": "Proved (Props/C16.v, 37 theorems, concrete model of resolvePathWithInfo over the modelled kernel walk): termination and read-onlyness for every world and name; no fuel exhaustion for any topology within a size bound; under the exclusion of the recorded deviations (D17, K2 - boolean triggers): no symlink among the parents of the result, same entry as the caller's name under the kernel walk (unless the kernel answers ELOOP = recorded finding K8), final component unresolved, missing tail lexical. Relative names (working directory = root) proved as well (C16_relative_*). ",
  "C17": "Proved (Props/C17.v, over the laws): ForceBackup of a resolved non-directory path re-establishes the invariant for the baseline rebased at p, whether it succeeds or fails; after any covered history Rollback returns nil, p is as at the ForceBackup moment, every other path as originally (C17_rollback_after_force_backup). A path that WAS a directory when the transaction began (now absent or a non-directory): Props/C17.v C17_former_directory_*: ForceBackup re-establishes the invariant for the baseline pruned at p; after Rollback p is as at the ForceBackup moment, its former content is not restored, everything outside is as originally. Closed for the three layerings. The two side conditions the proof forced were real defects, D21 and D22, both repaired in the code; the side conditions entry_ok, orig_not_dir_cond and parents_original remain hypotheses of every C17 theorem, the concrete instances included (the laws say nothing about creating below a missing directory). ",
  "C02": "Proved (Props/C02.v): between operations of any covered history every original is intact in the base view or copied at the same backup path and the backup holds nothing else (C02_between_operations_partial); tryBackup never changes the base view. AT EVERY INSTANT (Props/C02_instant.v): with the model's own crash points (the state at instant k = the world in which a run with crash point k halts), every instant of tryBackup, of every covered operation, of every covered history and of Rollback is recoverable: originals intact or exactly copied, the backup holds nothing but copies with at most the one entry being written incomplete; closed for the three layerings (C02_instant_concrete/_documented/_new and the _rollback_ variants). Fault plans and operations outside 'covered' are decided by enumeration. ",
